@@ -54,11 +54,11 @@ TYPE_KEYWORDS = {'instance': 'instance of', 'treat': 'treat as', 'castable': 'ca
 
 def level(node, tbl):
     t = node[0]
-    if t in ('num', 'name', 'var', 'str', 'lit', 'pname', 'dot', 'call', 'paren', 'root', 'parent'):
+    if t in ('num', 'name', 'var', 'str', 'lit', 'pname', 'ulookup', 'dot', 'call', 'paren', 'root', 'parent'):
         return ATOM_LEVEL
     if t == 'un':
         return tbl['neg'][0]
-    if t == 'pred':
+    if t in ('pred', 'lookup'):
         return tbl['['][0]
     return tbl[node[1]][0]          # ('bin', op, l, r) / ('type', op, e, typename)
 
@@ -79,6 +79,10 @@ def gen_tree(rng, version, depth, want='any', level_hint=None):
         return ['un', rng.choice(['-', '+'] if version != '1.0' else ['-']), gen_tree(rng, version, depth - 1)]
     if k < 0.2:
         return ['pred', gen_atom(rng, version, 'step'), gen_tree(rng, version, depth - 1)]
+    if version == '3.1' and k < 0.24:
+        # postfix lookup: same level as predicates
+        base = rng.choice([['var', rng.choice('vw')], ['name', rng.choice('abc')], gen_tree(rng, version, depth - 1)])
+        return ['lookup', base, rng.choice(['k', 'j', '1', '*'])]
     if k < 0.25 and depth > 1:
         return ['call', rng.choice(['boolean', 'not', 'count', 'string']), gen_tree(rng, version, depth - 1)]
     op = rng.choice(ops)
@@ -120,6 +124,8 @@ def gen_atom(rng, version, want='any'):
         return rng.choice([['name', rng.choice('abc')], ['name', rng.choice('abc')], ['dot']])
     if rng.random() < 0.08:
         return list(rng.choice(LITERALS_ANY + (LITERALS_2 if version != '1.0' else [])))
+    if version == '3.1' and rng.random() < 0.06:
+        return ['ulookup', rng.choice(['k', 'j', '1', '*'])]     # unary lookup: a primary expression
     k = rng.random()
     if k < 0.45:
         return ['num', rng.randint(0, 9)]
@@ -149,7 +155,7 @@ def need_parens(child, parent, side, tbl, version):
         elif kind == 'path':
             # E1/E2: E1 is a relative path (same level), E2 a step (postfix expression or axis step)
             need = pl if side == 'L' else tbl['['][0]
-            if side == 'R' and child[0] in ('num', 'str', 'lit', 'var', 'call'):
+            if side == 'R' and child[0] in ('num', 'str', 'lit', 'var', 'call', 'ulookup'):
                 return False        # primary expressions are steps
         else:
             need = pl + 1
@@ -166,6 +172,8 @@ def need_parens(child, parent, side, tbl, version):
         if side == 'L':
             return cl < tbl['['][0] or child[0] in ('num', 'str') and False
         return False
+    if t == 'lookup':
+        return cl < tbl['['][0]
     if t == 'call':
         return False
     return False
@@ -207,6 +215,10 @@ def tokens(node, tbl, version, rng=None, redundant=0.0):
         return sub(node[2], node, 'L') + TYPE_KEYWORDS[node[1]].split() + [node[3]]
     if t == 'pred':
         return sub(node[1], node, 'L') + ['['] + tokens(node[2], tbl, version, rng, redundant) + [']']
+    if t == 'lookup':
+        return sub(node[1], node, 'L') + ['?', node[2]]
+    if t == 'ulookup':
+        return ['?', node[1]]
     if t == 'call':
         return [node[1], '('] + tokens(node[2], tbl, version, rng, redundant) + [')']
     raise ValueError(t)
@@ -242,6 +254,10 @@ def expected_tree(node):
         return '(%s %s (: (%s) (%s)))' % (node[1], expected_tree(node[2]), pfx, local)
     if t == 'pred':
         return '([ %s %s)' % (expected_tree(node[1]), expected_tree(node[2]))
+    if t == 'lookup':
+        return '(? %s (%s))' % (expected_tree(node[1]), node[2])
+    if t == 'ulookup':
+        return '(? (%s))' % node[1]
     if t == 'call':
         return '(%s %s)' % (node[1], expected_tree(node[2]))
     raise ValueError(t)
